@@ -1691,7 +1691,9 @@ class PyCdlib:
                         else:
                             raise pycdlibexception.PyCdlibInternalError('Only expected two EFI sections')
                         num_seen_efi += 1
-                    elif enc.platform_id == 0:
+                    elif enc.platform_id == 0 and enc.entry is self.eltorito_boot_catalog.initial_entry:
+                        # The MBR boots the file of the default (initial)
+                        # entry, not that of a later x86 section entry.
                         self.isohybrid_mbr.update_rba(current_extent)
 
                 current_extent = self._set_inode(enc.entry.inode, current_extent,
